@@ -5,7 +5,6 @@
 from __future__ import annotations
 
 import datetime
-from collections import defaultdict
 from types import MappingProxyType
 from typing import TYPE_CHECKING, Any, Final, Literal, TypeVar
 
@@ -93,12 +92,20 @@ def _to_ticks(obj: datetime.datetime | datetime.timedelta) -> int:
     )
 
 
+class _Lookup(dict[_TKey, list[_TValue]]):
+    """Like dotnet's ILookup, a missing key gives an empty group. Unlike ``defaultdict``, asking for one does not
+    add the key, so reading the lookup never changes its length, its keys or the result of ``in``."""
+
+    def __missing__(self, key: _TKey) -> list[_TValue]:
+        return []
+
+
 def _to_lookup(mapping: Mapping[_TKey, _TValue]) -> MappingProxyType[_TValue, Sequence[_TKey]]:
     """Produces a mapping of value->keys, aking to the `.ToLookup()` in dotnet."""
     # TODO: Make this work for other collections, not just dict.
-    lookup = defaultdict(list)
+    lookup: _Lookup[_TValue, _TKey] = _Lookup()
     for k, v in mapping.items():
-        lookup[v].append(k)
+        lookup.setdefault(v, []).append(k)
     return MappingProxyType(lookup)
 
 
